@@ -91,6 +91,7 @@ FIXED_CONTEXTS = [
     ("class A({H}): pass\n", "exec"), ("class A(metaclass={H}): pass\n", "exec"), ("print({H}, *{H2})\n", "exec"), ("async def g():\n    await {H}\n", "exec"),
     ("match {H}:\n    case 1: pass\n", "exec"), ("match a:\n    case 1 if {H}: pass\n", "exec"), ("x = y = {H}\n", "exec"), ("x += {H}\n", "exec"), ("x: int = {H}\n", "exec"),
     ("(w := {H})\n", "exec"), ("{H}", "eval"), ("({H})", "eval"), ("f({H}, {H2})", "eval"), ("[{H}]", "eval"), ("{H}.a.b", "eval"), ("a @ {H}", "eval"), ("a if {H} else b", "eval"),
+    ("x = {H}\ny = 'plain'\n", "exec"), ("f({H}, 'plain', \"q\")\n", "exec"), ("a = [{H}, 'p', {H2}, 's']\n", "exec"), ("x = {H}; y = 'after' 'more'\n", "exec"),
     ("x = f'{{{H}}}'\n", "exec"), ("x = f'{{{H}!r:>10}}'\n", "exec"), ("try:\n    pass\nexcept {H}:\n    pass\n", "exec"), ("global_ = {H}; y = {H2}\n", "exec"), ("del a[{H}]\n" if False else "a[{H}]\n", "exec"),
 ]
 
